@@ -25,6 +25,10 @@ def cells(tier, seed):
         out.append({"id": f"homog/n2/{pc}", "params": {"group": "homog", "n": 2, "precond": pc, "cols": 1}})
         out.append({"id": f"tridiag/n2/{pc}", "params": {"group": "tridiag", "n": 2, "precond": pc, "cols": 1}})
         out.append({"id": f"monotone/n2/{pc}", "params": {"group": "monotone", "n": 2, "precond": pc, "cols": 1}})
+    for pc in ("none", "jacobi"):
+        out.append({"id": f"frozen/n2diag/{pc}", "params": {"group": "frozen", "n": 2, "precond": pc, "cols": 2, "diag": True}})
+    out.append({"id": "tridiag_breakdown/n2diag/none", "params": {"group": "tridiag_breakdown", "n": 2, "precond": "none", "cols": 2, "diag": True}})
+    out.append({"id": "tridiag_breakdown/n3const/none", "params": {"group": "tridiag_breakdown", "n": 3, "precond": "none", "cols": 2, "diag": "const"}})
     out.append({"id": "limits/n2", "params": {"group": "limits", "n": 2, "precond": "none", "cols": 1}})
     out.append({"id": "term/n3diag/none/c1/none", "params": {"group": "term", "n": 3, "precond": "none", "cols": 1, "guess": "none", "diag": True}})
     out.append({"id": "term/n1/none/c1/none", "params": {"group": "term", "n": 1, "precond": "none", "cols": 1, "guess": "none"}})
@@ -43,16 +47,20 @@ def describe(tier):
     return {
         "bounds": {"n": "2 (full symbolic L L^T), 3 (diagonal), 1", "columns": [1, 2], "preconditioners": PRECOND, "max_iter": "n (exact termination) / 1 (monotonicity)"},
         "outside": ["the classical kappa bound for j >= 2", "sizes up to 64, condition numbers to 1e6, float32 floors", "NaN clause (reals)",
-                    "'converged columns stop changing' (mask semantics under the generic-case cut)"],
+                    "'converged columns stop changing' beyond the first freeze decision at n = 2"],
         "assumptions": ["generic-case cut inside linear_cg: safe-division / convergence masks on symbolic data are not triggered (recorded per path); "
                         "zero right-hand-side columns are concrete zeros, so their mask is a constant True",
-                        "float .item() in linear_cg only formats the warning text (whitelisted)"],
+                        "float .item() in linear_cg only formats the warning text (whitelisted)",
+                        "masks that compare against a threshold above 1e-6 (stop_updating_after = 0.5 in the `frozen` cells) are forks, not cuts"],
     }
 
 
 def setup(ctx, p):
     n = p["n"]
-    if p.get("diag"):
+    if p.get("diag") == "const":
+        # concrete spectrum 1, 2, 4, ..: only the right-hand side is symbolic (keeps the n = 3 identities within reach)
+        A = torch.diag_embed(torch.tensor([float(2 ** i) for i in range(n)], dtype=torch.float64))
+    elif p.get("diag"):
         d = ctx.leaf("d", (n,), positive=True)
         A = torch.diag_embed(d)
     else:
@@ -130,6 +138,52 @@ def harness(ctx):
             e1, e0 = xs - x1, xs
             ctx.true(((e1 * (A @ e1)).sum() <= (e0 * (A @ e0)).sum()).reshape(1), "||x* - x_1||_A <= ||x* - x_0||_A")
         attempt(ctx, g, chk)
+        return
+    if g == "frozen":
+        # "converged columns stop changing": with a sizeable stop_updating_after the freeze decision is a real fork
+        b = ctx.leaf("rhs", (n, 1))
+        thr = 0.5
+        def chk():
+            x1 = linear_cg(mm, b, max_iter=1, max_tridiag_iter=0, tolerance=1e-30, stop_updating_after=thr, **kw)
+            x2 = linear_cg(mm, b, max_iter=2, max_tridiag_iter=0, tolerance=1e-30, stop_updating_after=thr, **kw)
+            bn = (b * b).sum(-2).sqrt()
+            r1 = b - A @ x1
+            rn = (r1 * r1).sum(-2).sqrt() / bn
+            for j in range(1):
+                if bool(rn[j] < thr):
+                    ctx.eq(x2[:, j], x1[:, j], f"column {j} frozen after iteration 1 (relative residual < stop_updating_after) does not change")
+                else:
+                    ctx.eq(A @ x2[:, j], b[:, j], f"column {j} not frozen: solved at iteration n")
+        attempt(ctx, g, chk)
+        return
+    if g == "tridiag_breakdown":
+        # one column whose Lanczos recurrence breaks down at once (an eigenvector of A) next to a generic column: the generic
+        # column must still receive its full tridiagonal matrix
+        bg = ctx.leaf("rhs", (n, 1))
+        e0 = torch.zeros(n, 1, dtype=torch.float64)
+        e0[0, 0] = 1.0
+        for order, b in (("eig,generic", torch.cat([e0, bg], -1)), ("generic,eig", torch.cat([bg, e0], -1))):
+            jg = 1 if order == "eig,generic" else 0
+            def chk(b=b, jg=jg, order=order):
+                # max_iter = n + 1: in R the loop would otherwise stop (residual identically 0) before the last Lanczos
+                # coefficient is stored, while the float run at tolerance 1e-30 would not
+                x, Tm = linear_cg(mm, b, max_iter=n + 1, max_tridiag_iter=n, n_tridiag=2, tolerance=1e-30, **kw)
+                if n == 2:
+                    ctx.eq(A @ x, b, f"A x_n = b ({order})")
+                k = Tm.shape[-1]
+                if tuple(Tm.shape) != (2, k, k):
+                    ctx.fail("tridiag shape", f"{tuple(Tm.shape)}")
+                    return
+                Tg = Tm[jg]
+                z = bg[:, 0] / (bg[:, 0] * bg[:, 0]).sum().sqrt()
+                ctx.eq(Tg[0, 0], (z * (A @ z)).sum(), f"generic column: T00 = z^T A z ({order})")
+                if k < n:
+                    ctx.fail(f"generic column: tridiagonal dimension ({order})", f"T is {k}x{k} although the generic column's Krylov space has dimension {n}")
+                    return
+                ctx.eq(torch.diagonal(Tg).sum(), torch.diagonal(A).sum(), f"generic column: tr T = tr A ({order})")
+                ctx.eq(det_ref(Tg), det_ref(A), f"generic column: det T = det A ({order})")
+                ctx.eq(Tm[1 - jg][0, 0], A[0, 0], f"eigenvector column: T00 = its eigenvalue ({order})")
+            attempt(ctx, g + ":" + order, chk)
         return
     if g == "limits":
         b = ctx.leaf("rhs", (n, 1))
